@@ -30,6 +30,23 @@ def gen_cases(tier):
             cfgs = [([], True, None), ([], False, None), ([], True, [1]), ([], False, [3, 1])]
             cases.append({"id": i + 1, "raw": raw, "cfgs": cfgs})
             continue
+        if i % 12 in (5, 9):
+            # a dividend guarantee over two inputs it shares with the divisor; the assumptions meet in one point (degenerate LP optimum
+            # for tactic 5, which is tried first)
+            a = {v: rng.choice([1, 2, 3]) * rng.choice([1, 1, 1, -1]) for v in ("y", "z")}
+            rows, px = gen.degenerate_rows(rng, ["y", "z"], None, with_point=True)
+            top = {"inv": ["y", "z"], "outv": ["o"], "a": rows, "g": [(dict(a, o=rng.choice([1, 2])), rng.randint(2, 10))]}
+            # the divisor's guarantees pass through the same point and mention a variable the quotient keeps
+            v = rng.choice(["y", "z"])
+            div = {"inv": ["y", "z"], "outv": ["m"], "a": list(rows), "g": [({v: 1, "m": -1}, 0), ({"m": 1}, px[v] + rng.choice([0, 0, 1]))]}
+            try:
+                gen.mk_contract(top)
+                gen.mk_contract(div)
+            except ValueError:
+                continue
+            cfgs = [([], False, [5]), ([], False, [5, 1, 2, 3, 4]), ([], True, [5, 2]), ([], True, [5])]
+            cases.append({"id": i + 1, "raw": {"kind": "random", "top": top, "div": div}, "cfgs": cfgs})
+            continue
         if kind.startswith("hidden"):
             schema = rng.choice(["cascade", "casc_shared", "casc_extra", "fanout", "shared", "cascade_rev", "indep"])
             pr = gen.build_pair(rng, schema, dyadic=0.1 if i % 9 == 0 else 0.0)
